@@ -41,3 +41,10 @@ Theorem transfer_literals_agree :
   Gen.H1Tables.fork_max_1xx = Z.of_nat max_1xx_responses /\
   Gen.H1Tables.fork_mime_error_limit = 80%Z.
 Proof. vm_compute. repeat split. Qed.
+
+(* readLoop's keep-alive decision: the status bound below which a terminal response ends the
+   connection, and both `pc.br.Buffered() == 0` guards (bodiless branch, body-EOF branch) *)
+Theorem readloop_decision_agrees :
+  Gen.H1Tables.fork_no_reuse_status_bound = no_reuse_status_bound /\
+  Gen.H1Tables.fork_buffer_guards = 2%Z.
+Proof. vm_compute. split; reflexivity. Qed.
